@@ -44,8 +44,17 @@ func (i StringAnyMapInspector) SetWithBuffer(dst, value any, buf AccumulativeBuf
 		return
 	}
 	var buf_ map[string]any
-	if err = i.indir1(&buf_, dst); err != nil || buf_ == nil {
+	if err = i.indir1(&buf_, dst); err != nil {
 		return err
+	}
+	if buf_ == nil {
+		// a nil map may be replaced only through a pointer to it
+		var p *map[string]any
+		if i.indir2(&p, dst) != nil || p == nil {
+			return nil
+		}
+		buf_ = make(map[string]any)
+		*p = buf_
 	}
 	if len(path) > 1 {
 		x, ok := buf_[path[0]]
@@ -163,18 +172,22 @@ func (i StringAnyMapInspector) Copy(x any) (dst any, err error) {
 }
 
 func (i StringAnyMapInspector) CopyTo(src, dst any, buf AccumulativeBuffer) (err error) {
-	var msrc, mdst map[string]any
-	if err = i.indir1(&msrc, src); err != nil || msrc == nil {
+	var msrc map[string]any
+	var pdst *map[string]any
+	if err = i.indir1(&msrc, src); err != nil {
 		return
 	}
-	if err = i.indir2(&mdst, dst); err != nil || mdst == nil {
+	if err = i.indir2(&pdst, dst); err != nil || pdst == nil {
 		return
 	}
-	for k := range mdst {
-		delete(mdst, k)
+	if *pdst == nil {
+		*pdst = make(map[string]any, len(msrc))
+	}
+	for k := range *pdst {
+		delete(*pdst, k)
 	}
 
-	return i.cpy(&mdst, msrc, buf)
+	return i.cpy(pdst, msrc, buf)
 }
 
 func (i StringAnyMapInspector) Length(x any, result *int, path ...string) error {
@@ -262,17 +275,15 @@ func (i StringAnyMapInspector) indir1(dst *map[string]any, val any) error {
 	return nil
 }
 
-func (i StringAnyMapInspector) indir2(dst *map[string]any, val any) error {
+func (i StringAnyMapInspector) indir2(dst **map[string]any, val any) error {
 	switch x := val.(type) {
 	case map[string]any:
 		return ErrMustPointerType
 	case *map[string]any:
+		*dst = x
+	case **map[string]any:
 		if x != nil {
 			*dst = *x
-		}
-	case **map[string]any:
-		if x != nil && *x != nil {
-			*dst = *(*x)
 		}
 	default:
 		return ErrUnsupportedType
